@@ -161,5 +161,14 @@ def run(ctx):
         for _ in range(6 if q else 80):
             k = rng.randint(1, 3)
             tts = [rng.getrandbits(1 << n) for _ in range(k)]
+            r = rng.random()
+            if r < 0.3:
+                # both polarities of one node among the roots
+                tts.append(T.neg(tts[0], n))
+            elif r < 0.7:
+                # complemented roots that are sub-nodes of another root (cofactors by every
+                # variable: the one at the top of the file's order is a child of the root)
+                for j in range(n):
+                    tts.append(T.neg(T.cofactor(tts[0], n, {j: rng.random() < 0.5}), n))
             for mode in (0, 1, 3):
                 run_case(ctx, n, tts, mode, gaps=(mode != 3 and rng.random() < 0.5))
